@@ -15,6 +15,7 @@ import k5
 import k6
 import k7
 import k8
+import k9
 import controls
 
 _CTX = {}
@@ -26,16 +27,15 @@ def load_ctx(tier):
     prog = facts.load_program(target_set="lib")
     extra = {}
     targets = ["lib"]
-    if tier == "thorough":
-        # the binaries are clients of the library: the enumerative deny rules look at them too
-        from mir import Program
+    # the binaries are clients of the library: the enumerative deny rules and B1 look at them too
+    from mir import Program
 
-        files, hsh, meta = facts.extract(target_set="bins")
-        for f in files:
-            nm = os.path.basename(f).split("-")[0]
-            if nm in ("svr", "cli"):
-                extra["bin:" + nm] = Program.load(f)
-                targets.append("bin:" + nm)
+    files, hsh, meta = facts.extract(target_set="bins")
+    for f in files:
+        nm = os.path.basename(f).split("-")[0]
+        if nm in ("svr", "cli"):
+            extra["bin:" + nm] = Program.load(f)
+            targets.append("bin:" + nm)
     ctx = Ctx(prog, targets, extra)
     _CTX[tier] = ctx
     return ctx
@@ -50,99 +50,99 @@ BASE_ASSUME = [
 PROPS = {
     "C01": {
         "title": "The store behaves as a key-value map for every operation sequence",
-        "rules": [k2.p3_publish_after_append, k3.s1_roles, k2m.p4_merge_per_entry_order, k2m.p5_merge_outputs_before_unlink, k5.p17_read_under_index_guard, k2.p14_rollover_test, k2.p6b_pool_filled, k3.s2_live_vs_recovery, k2m.s7_s8_merge_sets, k8.s12_config_setters],
-        "decides": "put publishes exactly the appended record's location, only after a successful append, with the id of the file the bytes went to; delete appends a tombstone, removes the key and reports presence; (fileid,len,pos) keep their roles through every call and struct; merge re-points an entry only to the bytes it just copied, at the offset before advancing, resetting the offset per output; the read happens under the index guard; rollover test after each append; a merge rotates the active file above its outputs and removes inputs oldest first; the reader pool is filled to its capacity (also for concurrency 0); put/delete perform exactly the live-path index effects; copy set = removed set; Config setters store what they are given",
+        "rules": [k2.p3_publish_after_append, k3.s1_roles, k2m.p4_merge_per_entry_order, k2m.p5_merge_outputs_before_unlink, k5.p17_read_under_index_guard, k2.p14_rollover_test, k2.p6b_pool_filled, k3.s2_live_vs_recovery, k2m.s7_s8_merge_sets, k8.s12_config_setters, k9.s15_position_tracking, k9.s14_reader_cache_keying, k9.s21_forwarding, k9.s22_one_codec, k9.p21_new_active_datafile],
+        "decides": "put publishes exactly the appended record's location, only after a successful append, with the id of the file the bytes went to; delete appends a tombstone, removes the key and reports presence; (fileid,len,pos) keep their roles through every call and struct; merge re-points an entry only to the bytes it just copied, at the offset before advancing, resetting the offset per output; the read happens under the index guard; rollover test after each append; a merge rotates the active file above its outputs and removes inputs oldest first; the reader pool is filled to its capacity (also for concurrency 0); put/delete perform exactly the live-path index effects; copy set = removed set; Config setters store what they are given; positions are tracked by the byte counts really transferred and an append reports (position before, position after − before); the reader cache is keyed by the file id asked for; the forwarding layers (trait impl, Handle::get, PooledReader, Reader::get → record.value | None) forward; writer and readers use one bincode configuration; new_active_datafile always switches to the file of the id it was given",
         "not_decided": "map semantics over histories as behaviour; that len/pos VALUES are right (position arithmetic inside BufWriterWithPos), LRU cache keying, value equality",
     },
     "C02": {
         "title": "Closing and reopening a store preserves exactly its contents, deletions included",
-        "rules": [k3.s2_live_vs_recovery, k4.v1_log_iterator_eof, k1.w7_recovery_read_only, k5.o1_recovery_order, k2m.p5_merge_outputs_before_unlink, k5.ghint_hint_validation, k4.v5_hint_fallback, k2m.p4_merge_per_entry_order, k2m.s7_s8_merge_sets, k3.s1_roles],
-        "decides": "replaying a record performs the index effects writing it performed (tombstones remove); the sequential decoder stops cleanly exactly at end of file; recovery is read-only and creates one fresh file; files are replayed in ascending numeric id order; a merge always rotates the active file above its outputs (so later writes replay after merged copies); hint entries are admitted up to and including the end of the data file; only a missing hint falls back to the scan; hint records mirror the re-pointed entry by role and are appended in the right output",
+        "rules": [k3.s2_live_vs_recovery, k4.v1_log_iterator_eof, k1.w7_recovery_read_only, k5.o1_recovery_order, k2m.p5_merge_outputs_before_unlink, k5.ghint_hint_validation, k4.v5_hint_fallback, k2m.p4_merge_per_entry_order, k2m.s7_s8_merge_sets, k3.s1_roles, k9.s15_position_tracking, k9.s16_file_names, k9.s22_one_codec, k9.p21_new_active_datafile],
+        "decides": "replaying a record performs the index effects writing it performed (tombstones remove); the sequential decoder stops cleanly exactly at end of file; recovery is read-only and creates one fresh file; files are replayed in ascending numeric id order; a merge always rotates the active file above its outputs (so later writes replay after merged copies); hint entries are admitted up to and including the end of the data file; only a missing hint falls back to the scan; hint records mirror the re-pointed entry by role and are appended in the right output; the sequential reader reports each record's (position before, bytes consumed); data/hint file names are `<id>.….<ext>` with distinct extensions and sorted_fileids recognises exactly the data extension; one bincode configuration on both sides; new_active_datafile always switches",
         "not_decided": "equality of recovered values over histories; max+1 arithmetic beyond its shape",
     },
     "C03": {
         "title": "A process crash at any instant loses no acknowledged write and corrupts nothing",
-        "rules": [k2.p1_append_flushes, k2.p3_publish_after_append, k2m.p4_merge_per_entry_order, k2m.p5_merge_outputs_before_unlink, k1.w1_file_mutation_api, controls.control("W1"), k1.w7_recovery_read_only, k4.v1_log_iterator_eof, k2m.s7_s8_merge_sets, k5.o1_recovery_order, k3.s2_live_vs_recovery],
-        "decides": "order constraints that must hold on every path for every kill point to be safe: an append that returned has flushed; index/ack follow the append; merge never issues an index re-point or hint record for bytes not yet in the file, never unlinks (in ascending order) before outputs are flushed+synced; only create-exclusive+append and whole-file unlink exist; a torn tail is skipped, not fatal; hint file created only after its data file; recovery replays in ascending id order and honours tombstones",
+        "rules": [k2.p1_append_flushes, k2.p3_publish_after_append, k2m.p4_merge_per_entry_order, k2m.p5_merge_outputs_before_unlink, k1.w1_file_mutation_api, controls.control("W1"), k1.w7_recovery_read_only, k4.v1_log_iterator_eof, k2m.s7_s8_merge_sets, k5.o1_recovery_order, k3.s2_live_vs_recovery, k9.s15_position_tracking, k9.s22_one_codec],
+        "decides": "order constraints that must hold on every path for every kill point to be safe: an append that returned has flushed; index/ack follow the append; merge never issues an index re-point or hint record for bytes not yet in the file, never unlinks (in ascending order) before outputs are flushed+synced; only create-exclusive+append and whole-file unlink exist; a torn tail is skipped, not fatal; hint file created only after its data file; recovery replays in ascending id order and honours tombstones; append positions come from the bytes really written (a short write is not over-counted); one codec configuration",
         "not_decided": "that these order constraints are sufficient; enumeration of crash points as executions",
     },
     "C04": {
         "title": "Concurrent gets, sets and deletes are linearizable and never panic or hang",
-        "rules": [k2.p6_reader_pool, k2.p6b_pool_filled, k6.n2_mmap_extent, k7.l1_lock_order, k2.p18_handle_delegation, k2.p3_publish_after_append, k2m.p4_merge_per_entry_order, k1.w2_index_mutators, k5.p17_read_under_index_guard, k3.s2_live_vs_recovery],
-        "decides": "the pooled reader returns on every exit incl. unwind; index published only after flushed bytes (put and merge); index mutated only under the writer mutex or before sharing; the file read happens under the index shard guard; the pool is filled to capacity; no shard re-entrancy and an acyclic lock order; Handle operations return the writer's verdict obtained under the lock",
+        "rules": [k2.p6_reader_pool, k2.p6b_pool_filled, k6.n2_mmap_extent, k7.l1_lock_order, k2.p18_handle_delegation, k2.p3_publish_after_append, k2m.p4_merge_per_entry_order, k1.w2_index_mutators, k5.p17_read_under_index_guard, k3.s2_live_vs_recovery, k9.s14_reader_cache_keying, k9.s21_forwarding, k9.n3_no_new_panic_sites, k9.s7b_merge_counts_in_output],
+        "decides": "the pooled reader returns on every exit incl. unwind; index published only after flushed bytes (put and merge); index mutated only under the writer mutex or before sharing; the file read happens under the index shard guard; the pool is filled to capacity; no shard re-entrancy and an acyclic lock order; Handle operations return the writer's verdict obtained under the lock; each reader's file cache is keyed by the id asked for; Handle::get returns what its pooled reader returned; every explicit panic site (unwrap/expect/borrow/panic!) on the paths of get/put/delete/merge/sync is one of the reviewed ones; merge books live entries on the output they are in (an under-counted file makes a later overwrite underflow and panic)",
         "not_decided": "linearizability of histories and real-time order (statements about schedules of run-time events)",
     },
     "C05": {
         "title": "Compaction never changes what any key reads, now or after a restart",
-        "rules": [k2m.p4_merge_per_entry_order, k3.s1_roles, k2m.s7_s8_merge_sets, k2m.p5_merge_outputs_before_unlink, k2m.t1_tombstone_conservation, k5.ghint_hint_validation, k3.s2_live_vs_recovery, k3.s5_trigger_threshold_roles, k5.o1_recovery_order, k4.v5_hint_fallback, k5.e2_merge_errors_abort],
-        "decides": "merge re-points only to copied+flushed bytes with roles intact and hint mirroring the entry; hint/data ids paired; copy set = removed set; sources outlive synced outputs; active file rotated above outputs; hint admission boundary includes equality; T1: deletion markers conserved across the unlink (known finding on this tree); selection compares statistics with thresholds (not triggers); recovery order and hint fallback; merge aborts on the first failed disk operation",
+        "rules": [k2m.p4_merge_per_entry_order, k3.s1_roles, k2m.s7_s8_merge_sets, k2m.p5_merge_outputs_before_unlink, k2m.t1_tombstone_conservation, k5.ghint_hint_validation, k3.s2_live_vs_recovery, k3.s5_trigger_threshold_roles, k5.o1_recovery_order, k4.v5_hint_fallback, k5.e2_merge_errors_abort, k9.s14_reader_cache_keying, k9.p21_new_active_datafile, k9.s16_file_names],
+        "decides": "merge re-points only to copied+flushed bytes with roles intact and hint mirroring the entry; hint/data ids paired; copy set = removed set; sources outlive synced outputs; active file rotated above outputs; hint admission boundary includes equality; T1: deletion markers conserved across the unlink (known finding on this tree); selection compares statistics with thresholds (not triggers); recovery order and hint fallback; merge aborts on the first failed disk operation; LogDir::copy copies (len, pos) of the file id asked for, from cached and fresh readers alike; new_active_datafile always switches (also when nothing was written to the current file); data and hint names differ",
         "not_decided": "value equality before/after as behaviour; which files a threshold setting selects at run time (T1 quantifies over all subsets)",
     },
     "C06": {
         "title": "Over the network SET/GET/DEL answer exactly as the map model, in order",
-        "rules": [k2s.p11_command_application, k2s.p12_handler_loop, k4.v2_parse_frame, k4.v6_write_frame_flushes, k3.s9_command_table, k2.p6b_pool_filled, k2.p3_publish_after_append, k2.p18_handle_delegation, k8.s9b_client_encoders, k8.v7_argument_parsers],
-        "decides": "one reply per applied command, after the storage call completed, none on error paths, with the prescribed variant and the stored bytes; DEL counts Ok(true); the connection loop is read→parse→apply→reply; Incomplete ⇒ read more; exactly the checked length is consumed on every path and the read buffer is never replaced; every reply is flushed unconditionally; command names matched by full equality; DEL processes every key; arguments: only bulk strings, list ends only when exhausted, GET/SET reject trailing arguments; delete reports presence from under the writer lock; client encoders use the dispatched literals; no partial writes; Ok(None) only on Incomplete",
+        "rules": [k2s.p11_command_application, k2s.p12_handler_loop, k4.v2_parse_frame, k4.v6_write_frame_flushes, k3.s9_command_table, k2.p6b_pool_filled, k2.p3_publish_after_append, k2.p18_handle_delegation, k8.s9b_client_encoders, k8.v7_argument_parsers, k9.s19_value_transparency, k9.s20_client_response_mapping, k9.s18_encoder_sequence, k9.s21_forwarding, k9.b1_server_binary_lifetime, k9.s23_argument_errors_reject],
+        "decides": "one reply per applied command, after the storage call completed, none on error paths, with the prescribed variant and the stored bytes; DEL counts Ok(true); the connection loop is read→parse→apply→reply; Incomplete ⇒ read more; exactly the checked length is consumed on every path and the read buffer is never replaced; every reply is flushed unconditionally; command names matched by full equality; DEL processes every key; arguments: only bulk strings, list ends only when exhausted, GET/SET reject trailing arguments; delete reports presence from under the writer lock; client encoders use the dispatched literals; no partial writes; Ok(None) only on Incomplete; values are carried as the bytes received (Set takes its value from get_bytes, apply passes the command's own key/value, GET replies with the store's bytes); the client writes its request before reading one response and maps replies per command; the encoder emits the RESP sequence per frame kind; the KeyValueStorage impl maps set/get/del to put/get/delete; the server binary keeps the store open while serving; argument errors reject the whole command",
         "not_decided": "byte-for-byte value equality and segmentation independence as observed behaviour",
     },
     "C07": {
         "title": "The RESP parser is total: no input panics, aborts or mis-reads a number",
-        "rules": [k6.n1_parser_total, k5.r1_bounded_recursion, controls.control("R1"), k1.w4_no_abort, controls.control("W4"), k3.s10_check_parse_readers, k3.s4_resp_tag_tables, k3.s11_empty_number_guard, k4.v2_parse_frame],
-        "decides": "every panic obligation of the parser slice (bounds, overflow, Buf preconditions, slice ranges, allocation size, unwrap/panic) discharged by abstract interpretation for every buffer and cursor position; bounded recursion depth (ranking argument on every call-graph cycle); no process-terminating call; check and parse use the same line/integer readers per tag and agree with the encoder's tables; a number without digits is rejected; the connection consumes exactly the checked length",
+        "rules": [k6.n1_parser_total, k5.r1_bounded_recursion, controls.control("R1"), k1.w4_no_abort, controls.control("W4"), k3.s10_check_parse_readers, k3.s4_resp_tag_tables, k3.s11_empty_number_guard, k4.v2_parse_frame, k9.s17_sign_discipline],
+        "decides": "every panic obligation of the parser slice (bounds, overflow, Buf preconditions, slice ranges, allocation size, unwrap/panic) discharged by abstract interpretation for every buffer and cursor position; bounded recursion depth (ranking argument on every call-graph cycle); no process-terminating call; check and parse use the same line/integer readers per tag and agree with the encoder's tables; a number without digits is rejected; the connection consumes exactly the checked length; '-' selects the subtracting accumulation, '+'/none the adding one, both ×10, digits are exactly b'0'..=b'9' minus 48",
         "not_decided": "digit-by-digit value correctness of accepted numbers",
     },
     "C08": {
         "title": "RESP encoding and decoding round-trip, independent of stream chunking",
-        "rules": [k3.s4_resp_tag_tables, k4.v3_read_frame_eof, k4.v2_parse_frame, k4.kdec_decimal_buffer, k4.v6_write_frame_flushes],
-        "decides": "encoder/parser/checker tag tables mutually inverse incl. the Null literal; EOF inside a frame ⇒ error, at a boundary ⇒ clean end; Incomplete ⇒ read more; consumed = checked length, buffer never replaced; decimal scratch buffer ≥ 20 bytes; frames flushed; the stream is read only after the buffer was tried; Ok(None) only on Incomplete; no partial-write API",
+        "rules": [k3.s4_resp_tag_tables, k4.v3_read_frame_eof, k4.v2_parse_frame, k4.kdec_decimal_buffer, k4.v6_write_frame_flushes, k9.s18_encoder_sequence],
+        "decides": "encoder/parser/checker tag tables mutually inverse incl. the Null literal; EOF inside a frame ⇒ error, at a boundary ⇒ clean end; Incomplete ⇒ read more; consumed = checked length, buffer never replaced; decimal scratch buffer ≥ 20 bytes; frames flushed; the stream is read only after the buffer was tried; Ok(None) only on Incomplete; no partial-write API; per frame kind the encoder emits type byte, text/decimal, CRLF, payload, CRLF in the RESP order, the bulk length is the payload's own length and the array count the number of items written; write_decimal sends exactly the formatted bytes",
         "not_decided": "round-trip equality and 'every strict prefix is incomplete' as universally quantified statements over encodings",
     },
     "C09": {
         "title": "With sync=always an acknowledged write survives power loss, merges included",
-        "rules": [k2.p2_sync_always, k2.p19_sync_chain, k2m.p5_merge_outputs_before_unlink, k5.ghint_hint_validation, k4.v1_log_iterator_eof, k8.s12_config_setters],
-        "decides": "Always ⇒ every successful append is followed by a checked fsync of the same file before Ok and before any rollover; LogWriter::sync reaches File::sync_all; merge flushes+fsyncs data AND hint outputs (checked) before replacing them, before the first unlink and before Ok; hint entries are admitted only if within the data file; the sync chain is unconditional down to File::sync_all; a torn tail after power loss is skipped, not fatal; Config::sync stores the strategy",
+        "rules": [k2.p2_sync_always, k2.p19_sync_chain, k2m.p5_merge_outputs_before_unlink, k5.ghint_hint_validation, k4.v1_log_iterator_eof, k8.s12_config_setters, k9.s12b_config_keys],
+        "decides": "Always ⇒ every successful append is followed by a checked fsync of the same file before Ok and before any rollover; LogWriter::sync reaches File::sync_all; merge flushes+fsyncs data AND hint outputs (checked) before replacing them, before the first unlink and before Ok; hint entries are admitted only if within the data file; the sync chain is unconditional down to File::sync_all; a torn tail after power loss is skipped, not fatal; Config::sync stores the strategy; the settings key `sync` (every field's own name) is accepted by the derived deserializer of the configuration structs",
         "not_decided": "the storage stack below fsync; the power-loss model itself",
     },
     "C10": {
         "title": "Hostile or malformed input harms only the connection that sent it",
-        "rules": [k2s.p10_accept_loop, k2s.p12_handler_loop, k1.w4_no_abort, controls.control("W4"), k5.r1_bounded_recursion, controls.control("R1"), k1.w5_permit_ops, k3.s9_command_table, k8.p10b_accept_backoff, k4.v3_read_frame_eof, k8.v7_argument_parsers],
-        "decides": "each connection runs in its own spawned task that owns its Handler (a panic ends one task; the permit returns via Drop); only commands validated by Command::try_from reach set/del, names by full equality; no exit/abort/panic=abort; recursion bounded; listen() ends only when accept() itself gave up after its back-off; a half-sent frame ends the handler; malformed arguments are errors",
+        "rules": [k2s.p10_accept_loop, k2s.p12_handler_loop, k1.w4_no_abort, controls.control("W4"), k5.r1_bounded_recursion, controls.control("R1"), k1.w5_permit_ops, k3.s9_command_table, k8.p10b_accept_backoff, k4.v3_read_frame_eof, k8.v7_argument_parsers, k9.s23_argument_errors_reject, k9.p12b_read_error_ends_handler],
+        "decides": "each connection runs in its own spawned task that owns its Handler (a panic ends one task; the permit returns via Drop); only commands validated by Command::try_from reach set/del, names by full equality; no exit/abort/panic=abort; recursion bounded; listen() ends only when accept() itself gave up after its back-off; a half-sent frame ends the handler; malformed arguments are errors; an argument that fails to parse rejects the whole command (no command built from the arguments read so far); a read_frame error ends the handler instead of retrying on the same bytes",
         "not_decided": "that other connections observe correct answers meanwhile",
     },
     "C11": {
         "title": "Concurrent clients see one linearizable store",
-        "rules": [k2s.p11_command_application, k2.p18_handle_delegation, k1.w2_index_mutators, k5.p17_read_under_index_guard, k2.p3_publish_after_append, k3.s2_live_vs_recovery, k8.s9b_client_encoders],
-        "decides": "a reply is written only after the blocking storage call completed and its result was taken on the Ok edge; the store-level discipline the anchors name (single writer for index mutation, read under shard guard); results come from under the writer lock; put/delete perform exactly the live-path index effects with the location of the appended bytes",
+        "rules": [k2s.p11_command_application, k2.p18_handle_delegation, k1.w2_index_mutators, k5.p17_read_under_index_guard, k2.p3_publish_after_append, k3.s2_live_vs_recovery, k8.s9b_client_encoders, k9.s21_forwarding],
+        "decides": "a reply is written only after the blocking storage call completed and its result was taken on the Ok edge; the store-level discipline the anchors name (single writer for index mutation, read under shard guard); results come from under the writer lock; put/delete perform exactly the live-path index effects with the location of the appended bytes; the KeyValueStorage impl of Handle forwards set/get/del to put/get/delete unchanged",
         "not_decided": "linearizability itself",
     },
     "C12": {
         "title": "Hint files are only an accelerator: recovery with or without them agrees",
-        "rules": [k3.s1_roles, k2m.s7_s8_merge_sets, k3.s2_live_vs_recovery, k4.v5_hint_fallback, k5.ghint_hint_validation, k2m.p4_merge_per_entry_order, k5.e2_merge_errors_abort, k5.o1_recovery_order],
-        "decides": "hint record fields mirror the re-pointed index entry by role; hint n describes data n; the hint loader does to the index what the scanner does for live records; only NotFound falls back to the scan of the same id; admission boundary includes the last record; merge aborts on a failed hint write; recovery order",
+        "rules": [k3.s1_roles, k2m.s7_s8_merge_sets, k3.s2_live_vs_recovery, k4.v5_hint_fallback, k5.ghint_hint_validation, k2m.p4_merge_per_entry_order, k5.e2_merge_errors_abort, k5.o1_recovery_order, k9.s15_position_tracking, k9.s16_file_names, k9.s22_one_codec],
+        "decides": "hint record fields mirror the re-pointed index entry by role; hint n describes data n; the hint loader does to the index what the scanner does for live records; only NotFound falls back to the scan of the same id; admission boundary includes the last record; merge aborts on a failed hint write; recovery order; the scan path derives (len, pos) from the reader's real positions; a hint file is found under the id of its data file with a different extension; one codec for data and hint records",
         "not_decided": "that offsets written equal offsets a scan computes (run-time values)",
     },
     "C13": {
         "title": "Compaction actually reclaims space and never grows the store",
-        "rules": [k2m.s7_s8_merge_sets, k2m.p5_merge_outputs_before_unlink, k3.s5_trigger_threshold_roles],
-        "decides": "only entries located in the selected files are copied and the selected set is exactly the removed set; each selected id loses accounting entry, hint file and data file, only NotFound tolerated; selection compares statistics with the thresholds, like with like",
+        "rules": [k2m.s7_s8_merge_sets, k2m.p5_merge_outputs_before_unlink, k3.s5_trigger_threshold_roles, k9.s13_counter_arithmetic, k9.s2c_unconditional_counting, k9.s7b_merge_counts_in_output, k9.p14b_merge_rollover_test],
+        "decides": "only entries located in the selected files are copied and the selected set is exactly the removed set; each selected id loses accounting entry, hint file and data file, only NotFound tolerated; selection compares statistics with the thresholds, like with like; the counters behind the selection move as named and fragmentation = dead/(dead+live); dead records are counted unconditionally (a file holding only tombstones of absent keys still becomes eligible); copied entries are booked on the right output; merge outputs are rolled over on the running offset",
         "not_decided": "sizes, 'exactly as large as a fresh store', idempotence",
     },
     "C14": {
         "title": "Data files are append-only and immutable, with ids that only grow",
-        "rules": [k1.w1_file_mutation_api, controls.control("W1"), k1.w7_recovery_read_only, k2.p14_rollover_test, k2m.p5_merge_outputs_before_unlink, k2m.s7_s8_merge_sets, k5.o1_recovery_order, k2m.p4_merge_per_entry_order],
+        "rules": [k1.w1_file_mutation_api, controls.control("W1"), k1.w7_recovery_read_only, k2.p14_rollover_test, k2m.p5_merge_outputs_before_unlink, k2m.s7_s8_merge_sets, k5.o1_recovery_order, k2m.p4_merge_per_entry_order, k9.s16_file_names, k9.p21_new_active_datafile, k9.p14b_merge_rollover_test],
         "exhaustive": True,
-        "decides": "exhaustively over every call site: the only write-capable open is create_new+append; no truncate/rename/set_len/pwrite/MmapMut/seek-on-writer; unlink only in merge on store file names; reopen never opens an old file for writing; a rollover test follows every append; merge rotates the active id above its outputs; hint after data; ascending replay and max+1; the rollover test in merge sees the offset after the copied entry",
+        "decides": "exhaustively over every call site: the only write-capable open is create_new+append; no truncate/rename/set_len/pwrite/MmapMut/seek-on-writer; unlink only in merge on store file names; reopen never opens an old file for writing; a rollover test follows every append; merge rotates the active id above its outputs; hint after data; ascending replay and max+1; the rollover test in merge sees the offset after the copied entry; file names carry the id first and the data extension last, ids are parsed back from exactly those names; new_active_datafile creates the file of the id it was given; a merge rolls its output over on the running offset (not on the single entry's length)",
         "not_decided": "'greater than every id the directory has ever contained' (arithmetic over histories)",
     },
     "C15": {
         "title": "The connection limit holds and slots are never leaked",
-        "rules": [k2s.p10_accept_loop, k1.w5_permit_ops, k4.v3_read_frame_eof, k8.p10b_accept_backoff],
-        "decides": "take-and-forget before accept once per iteration; handler built and moved into the task on every continuing path; the only release is +1 in Handler's Drop (runs on return, error, panic, cancellation); semaphore sized from max_connections; no Handler leak; the accept back-off never takes or leaks permits and gives up only after its maximum; a half-sent frame ends the handler",
+        "rules": [k2s.p10_accept_loop, k1.w5_permit_ops, k4.v3_read_frame_eof, k8.p10b_accept_backoff, k9.p12b_read_error_ends_handler],
+        "decides": "take-and-forget before accept once per iteration; handler built and moved into the task on every continuing path; the only release is +1 in Handler's Drop (runs on return, error, panic, cancellation); semaphore sized from max_connections; no Handler leak; the accept back-off never takes or leaks permits and gives up only after its maximum; a half-sent frame ends the handler; a handler whose read failed leaves (and frees its slot) instead of spinning",
         "not_decided": "the run-time count of live connections",
     },
     "C16": {
         "title": "Graceful shutdown terminates, keeps acknowledged data, and tears no reply",
-        "rules": [k2s.p9_server_shutdown_handshake, k2s.p12_handler_loop, k4.v3_read_frame_eof, k2s.p10_accept_loop, k4.v6_write_frame_flushes, k8.p20_shutdown_helper, k8.p10b_accept_backoff],
-        "decides": "run(): notify, drop own completion sender, then wait, on every path; reading is raced with shutdown, applying a command is not; EOF mid-frame is an error path; every handler holds a completion sender and a subscription; replies are flushed; the Shutdown helper means what it says; accept back-off; no SO_LINGER on connections",
+        "rules": [k2s.p9_server_shutdown_handshake, k2s.p12_handler_loop, k4.v3_read_frame_eof, k2s.p10_accept_loop, k4.v6_write_frame_flushes, k8.p20_shutdown_helper, k8.p10b_accept_backoff, k9.b1_server_binary_lifetime, k9.p12b_read_error_ends_handler],
+        "decides": "run(): notify, drop own completion sender, then wait, on every path; reading is raced with shutdown, applying a command is not; EOF mid-frame is an error path; every handler holds a completion sender and a subscription; replies are flushed; the Shutdown helper means what it says; accept back-off; no SO_LINGER on connections; in the server binary the store outlives `server.run().await` and the server's handle is a handle of that store; a handler never loops back to read_frame on an error (it would never see the shutdown)",
         "not_decided": "bounded time; a client that never reads its replies",
     },
     "C17": {
@@ -153,14 +153,14 @@ PROPS = {
     },
     "C18": {
         "title": "Background merge and sync follow the configured policy",
-        "rules": [k4.v4_never_policy, k2s.p15_interval_loops, k2.p19_sync_chain, k1.w6_merge_sync_entry, k3.s5_trigger_threshold_roles, k8.v4b_window_policy, k8.s12_config_setters],
-        "decides": "Never ⇒ no path to merge; merge only behind can_merge()==true; triggers decide whether, thresholds decide which, like compared with like in the selecting direction; each tick of the sync loop reaches the fsync; periodic sync exactly under IntervalMs with its period; the Window policy compares the hour with start (<) and end (>); Config setters and the file-then-environment source order take effect; the jitter sampler accepts a zero-width range",
+        "rules": [k4.v4_never_policy, k2s.p15_interval_loops, k2.p19_sync_chain, k1.w6_merge_sync_entry, k3.s5_trigger_threshold_roles, k8.v4b_window_policy, k8.s12_config_setters, k9.s13_counter_arithmetic, k9.s12b_config_keys],
+        "decides": "Never ⇒ no path to merge; merge only behind can_merge()==true; triggers decide whether, thresholds decide which, like compared with like in the selecting direction; each tick of the sync loop reaches the fsync; periodic sync exactly under IntervalMs with its period; the Window policy compares the hour with start (<) and end (>); Config setters and the file-then-environment source order take effect; the jitter sampler accepts a zero-width range; fragmentation() is dead/(dead+live) and 0 without dead keys (what the triggers compare); every configuration field can be set under its own name from a file or the environment",
         "not_decided": "timing ('within one interval plus jitter')",
     },
     "C19": {
         "title": "Per-file live/dead accounting always matches the files' real contents",
-        "rules": [k3.s3_displaced_accounting, k3.s2_live_vs_recovery, k2m.s7_s8_merge_sets],
-        "decides": "every displaced index entry is routed to overwrite(prev.len) on the file it lived in; every append is counted on the file it went to (before rollover) with the appended length; the rebuild counts like the live path; merge counts each copied entry live on the output it went to, looked up per entry",
+        "rules": [k3.s3_displaced_accounting, k3.s2_live_vs_recovery, k2m.s7_s8_merge_sets, k9.s13_counter_arithmetic, k9.s2c_unconditional_counting, k9.s7b_merge_counts_in_output],
+        "decides": "every displaced index entry is routed to overwrite(prev.len) on the file it lived in; every append is counted on the file it went to (before rollover) with the appended length; the rebuild counts like the live path; merge counts each copied entry live on the output it went to, looked up per entry; add_live/add_dead/overwrite change exactly the counters they name by 1 resp. the given byte count, on a single straight path; every record (also a tombstone of an absent key) is counted on the file it lies in on every path, in the writer and in the recovery scan alike; a merge books each copied entry on the output it was copied into (the id is not rolled over in between)",
         "not_decided": "equality with ground truth over histories; underflow of live_keys",
     },
     "C20": {
